@@ -76,12 +76,14 @@ class Transport(MemTransport):
         self.lazy = lazy
         self.standin = standin
         self.on_lost = None
+        self.implicit = False
 
     def close(self):
         if self.closing:
             return
         self.closing = True
         if not self.lazy:
+            self.implicit = True         # connection_lost follows by itself, as the next callback of the loop
             self._loop.call_soon(self._call_connection_lost, None)
 
     def _call_connection_lost(self, exc):
@@ -112,6 +114,7 @@ class Rec:
         self.exc = None
         self.returned = False
         self.deliveries = []     # [(scenario clock, 'main'|'cleanup')]
+        self.release_calls = 0   # calls of the release_stream callback handed to Handler.accept
 
 
 class Scenario:
@@ -135,6 +138,14 @@ class Scenario:
         self.teardown = False
         self.clock = 0
         self.causes = []         # [(clock, kind, {handler key: phase when the cause happened})]
+        self.by_task = {}        # handler task -> Rec
+        self.same_read = False   # micro scenario: a wake-up was queued before the GOAWAY of the same read
+        # private containers of grpclib located by ROLE, never by name (None = not found so far):
+        #   'tasks'      per Handler: the mapping whose values are handler tasks          (Handler._tasks)
+        #   'cancelled'  per Handler: the non-mapping collection of handler tasks         (Handler._cancelled)
+        #   'handlers'   of the Server: the collection holding the per-connection Handler  (Server._handlers)
+        self.roles = {'tasks': None, 'cancelled': None, 'handlers': None}
+        self.ambiguous = set()
         self.server = Server([Service('v.S', {'M': (self._handler, 'SS')})], codec=RawCodec())
 
     # ---- the instrumented user handler ------------------------------------------------------------
@@ -155,7 +166,7 @@ class Scenario:
             raise ValueError(kind)
 
     async def _handler(self, stream):
-        rec = self.by_stream[(id(stream._stream.connection), stream._stream.id)]
+        rec = self.by_task[asyncio.current_task()]
         rec.entered = True
         k = 0
         try:
@@ -194,7 +205,7 @@ class Scenario:
             rec.exc = type(e).__name__
             raise
 
-    def cause(self, kind, scope):
+    def cause(self, kind, scope, implicit=False):
         """record a cancellation cause and the unfinished handlers in its scope (for the oracle)"""
         self.clock += 1
         aff = {}
@@ -208,19 +219,72 @@ class Scenario:
             if scope[0] == 'conn' and rec.c != scope[1]:
                 continue
             aff['%d.%d' % (rec.c, rec.i)] = self._phase(rec) if rec.task is not None else 'C'
-        self.causes.append((self.clock, kind, aff))
+        self.causes.append((self.clock, kind, aff, bool(implicit) and not self.same_read))
 
     def _spy(self, proto):
-        """remember the task Handler.accept creates for each stream (instance-level wrapper, /repo untouched)"""
+        """Learn, at the AbstractHandler.accept interface (instance-level wrapper, /repo untouched), which
+        task serves which stream (the task that exists after the call and did not before -- asyncio's public
+        all_tasks) and when the release_stream callback handed to the handler is called."""
         handler, orig = proto.handler, proto.handler.accept
 
         def accept(stream, headers, release_stream):
-            orig(stream, headers, release_stream)
             rec = self.by_stream.get((id(proto.connection), stream.id))
+
+            def release():
+                if rec is not None:
+                    rec.release_calls += 1
+                return release_stream()
+            before = asyncio.all_tasks(self.loop)
+            orig(stream, headers, release)
+            new = [t for t in asyncio.all_tasks(self.loop) if t not in before]
             if rec is not None:
                 rec.stream = stream
-                rec.task = handler._tasks.get(stream)
+                rec.task = new[0] if len(new) == 1 else None
+                if rec.task is not None:
+                    self.by_task[rec.task] = rec
+                else:
+                    self.errors.append(('accept', rec.c, 'created %d tasks' % len(new)))
         handler.accept = accept
+
+    # ---- private state, by role ---------------------------------------------------------------------
+    def _discover(self):
+        """find the role attributes once they hold something that identifies them"""
+        tasks = set(self.by_task)
+        handlers = [proto.handler for proto, _, _ in self.conns]
+        for h in handlers:
+            for name, val in list(vars(h).items()):
+                try:
+                    if isinstance(val, dict):
+                        if any(v in tasks for v in val.values()):
+                            self._role('tasks', name)
+                    elif isinstance(val, (set, frozenset, list, tuple)):
+                        if any(v in tasks for v in val):
+                            self._role('cancelled', name)
+                except TypeError:
+                    pass
+        for name, val in list(vars(self.server).items()):
+            try:
+                if isinstance(val, (set, frozenset, list, tuple, dict)) and any(h in val for h in handlers):
+                    self._role('handlers', name)
+            except TypeError:
+                pass
+
+    def _role(self, role, name):
+        if self.roles[role] is None:
+            self.roles[role] = name
+        elif self.roles[role] != name:
+            self.ambiguous.add(role)        # two candidates: do not guess, the observation is dropped
+
+    def _container(self, obj, role):
+        name = self.roles[role]
+        if name is None or role in self.ambiguous:
+            return ()
+        val = getattr(obj, name, ())
+        return val if val is not None else ()
+
+    def available(self):
+        """which internal observations this scenario can vouch for (the others are masked in the comparison)"""
+        return {r: (self.roles[r] is not None and r not in self.ambiguous) for r in self.roles}
 
     # ---- execution of intents ---------------------------------------------------------------------
     def _peer_ok(self, c):
@@ -305,15 +369,14 @@ class Scenario:
         if kind == 'start':
             if self.standin is None:
                 self.standin = AsyncioServerStandIn(self.loop)
-                self.server._server = self.standin
-                self.server._server_closed_fut = self.loop.create_future()
+                self.factory = start_server(self.loop, self.server, self.standin)
                 self.ops.append('st')
         elif kind == 'connect':
             if self.standin is not None and not self.standin.closed:
-                proto = self.server._protocol_factory()
+                proto = self.factory()
                 peer = Peer(client_side=True, auto_ack=False, settings={SettingCodes.INITIAL_WINDOW_SIZE: 0})
                 tr = Transport(proto, self.loop, peer.receive, bool(it[1]), self.standin)
-                tr.on_lost = (lambda c=len(self.conns): self.cause('lost', ('conn', c)))
+                tr.on_lost = (lambda c=len(self.conns), tr=tr: self.cause('lost', ('conn', c), tr.implicit))
                 peer.attach(tr)
                 peer.start()
                 self.standin.attach()
@@ -421,11 +484,15 @@ class Scenario:
 
     def _flags(self, rec):
         proto = self.conns[rec.c][0]
-        streams = proto.processor.streams if hasattr(proto, 'processor') else {}
-        reg = rec.sid in streams
+        streams = getattr(getattr(proto, 'processor', None), 'streams', None)
+        if isinstance(streams, dict):
+            reg = rec.sid in streams
+        else:                                   # registry not visible: what the handler side did
+            reg = rec.stream is not None and rec.release_calls == 0
         h = proto.handler
-        it = rec.stream is not None and rec.stream in h._tasks
-        ic = rec.task is not None and rec.task in h._cancelled
+        tasks = self._container(h, 'tasks')
+        it = rec.task is not None and isinstance(tasks, dict) and any(t is rec.task for t in tasks.values())
+        ic = rec.task is not None and any(t is rec.task for t in self._container(h, 'cancelled'))
         return reg, it, ic
 
     def view(self):
@@ -447,12 +514,14 @@ class Scenario:
         return 'pending'
 
     def _snap(self):
+        self._discover()
         parts = []
         for rec in self.order:
             if rec.stream is None and rec.task is None:
                 continue          # the open never reached the server
             reg, it, ic = self._flags(rec)
-            w = rec.stream is not None and rec.stream.wrapper is not None and rec.stream.wrapper._error is not None
+            wr = getattr(rec.stream, 'wrapper', None)
+            w = wr is not None and getattr(wr, 'cancelled', None) is True     # public flag set by Wrapper.cancel
             parts.append('%d.%d:%s:%d:%d:%d:%d:%d:%d:%d' % (rec.c, rec.i, self._phase(rec), rec.ncancel, rec.nhit,
                                                            rec.cleanup_done, reg, it, ic, w))
         self.ops.append('se')
@@ -462,11 +531,13 @@ class Scenario:
         self.snaps.append(','.join(parts) + ';W' + self.wait_state() + ';X' +
                           ','.join(str(c) for c in sorted(self.crashed)) + ';E%d' % self.serr + ';H' +
                           ','.join(str(c) for c, (proto, _, _) in enumerate(self.conns)
-                                   if proto.handler in self.server._handlers))
+                                   if proto.handler in self._container(self.server, 'handlers')))
 
 
-def canon_model_snapshot(s):
-    """model snapshot -> the implementation's vocabulary (drop the ghost `late`, merge waiter stages)"""
+def canon_model_snapshot(s, avail=None):
+    """model snapshot -> the implementation's vocabulary (drop the ghost `late`, merge waiter stages);
+    internal observations the scenario could not locate by role are masked with '?'"""
+    avail = avail or {}
     tasks, w, x, e, h = s.split(';')
     out = []
     late_ok = True
@@ -476,11 +547,53 @@ def canon_model_snapshot(s):
         f = t.split(':')
         if (f[8] == '1') != (f[3] != '0'):
             late_ok = False
+        if not avail.get('tasks', True):
+            f[6] = '?'
+        if not avail.get('cancelled', True):
+            f[7] = '?'
         out.append(':'.join(f[:8] + f[9:10]))
     ws = w[1:]
     if ws in ('latch', 'server', 'sub'):
         ws = 'pending'
+    if not avail.get('handlers', True):
+        h = 'H?'
     return ','.join(out) + ';W' + ws + ';' + x + ';' + e + ';' + h, late_ok
+
+
+def mask_impl_snapshot(s, avail):
+    tasks, w, x, e, h = s.split(';')
+    out = []
+    for t in tasks.split(','):
+        if not t:
+            continue
+        f = t.split(':')
+        if not avail.get('tasks', True):
+            f[6] = '?'
+        if not avail.get('cancelled', True):
+            f[7] = '?'
+        out.append(':'.join(f))
+    if not avail.get('handlers', True):
+        h = 'H?'
+    return ';'.join([','.join(out), w, x, e, h])
+
+
+def start_server(loop, server, standin):
+    """Server.start() through its public API: the loop's create_server hands out the stand-in and tells us
+    the protocol factory the server registered (no private attribute of Server is touched)."""
+    got = {}
+
+    async def create_server(factory, *a, **kw):
+        got['factory'] = factory
+        return standin
+    loop.create_server = create_server
+    try:
+        t = loop.create_task(server.start('127.0.0.1', 0))
+        loop.run_quiet(0.0)
+        if not t.done() or t.exception() is not None:
+            raise RuntimeError('Server.start() did not complete on the virtual loop: %r' % (t,))
+    finally:
+        del loop.create_server
+    return got['factory']
 
 
 def collect(sc, loop):
@@ -495,7 +608,7 @@ def collect(sc, loop):
     sc.teardown = True
     return {'ops': 'run ' + ' '.join(sc.ops), 'snaps': sc.snaps, 'events': sc.events, 'recs': recs,
             'errors': sc.errors, 'unhandled': unhandled, 'wait_log': sc.wait_log, 'final': final,
-            'causes': sc.causes, 'nconns': len(sc.conns), 'lost': [tr.lost for _, tr, _ in sc.conns],
+            'causes': sc.causes, 'avail': sc.available(), 'roles': dict(sc.roles), 'nconns': len(sc.conns), 'lost': [tr.lost for _, tr, _ in sc.conns],
             'started': sc.standin is not None, 'srvclosed': sc.standin is not None and sc.standin.closed}
 
 
